@@ -16,6 +16,14 @@ T: drive_front record: mutated-valid and random request bytes, each followed by 
    independent reader of the bytes supplies the attributes; Trace_FrontDoor evaluates
    FrontDoorReq!Allowed per message.  The replayed cases go through the trace monitor too
    (adapter cross-check).
+L: drive_front live: the REAL hickory_server::Server (UDP socket + TCP listener on 127.0.0.1:0)
+   with catalogs from the generated cases; request sequences (FrontDoor request space plus
+   transport-level oddities: answers of 65508..65535 octets for an EDNS payload of 65535, big
+   answers for payload 512, empty / one-octet datagrams, response-flagged messages, TCP frames
+   sent octet by octet, connections closed inside a frame, 3000 pipelined queries read late),
+   each request followed by a canary query; Serving.tla states "after any prefix a canary gets
+   exactly one matching response" (model-checked as a leads-to property), Trace_Serving judges
+   every canary.  Real clock: 10 s per canary, one UDP retry.
 """
 import json
 import os
@@ -36,6 +44,47 @@ def run_mc(wd, tier):
                       os.path.join(wd, "mc"), workers=8, timeout=1200)
         out.append(("MC_FrontDoor_quick", st2))
     return out
+
+
+def run_live(res, wd, cpath, seed, thorough):
+    """Live sockets: real Server on loopback, request sequences with canaries, Trace_Serving."""
+    lwd = os.path.join(wd, "live")
+    os.makedirs(os.path.join(lwd, "tmp"), exist_ok=True)
+    st = vlib.mc(os.path.join(vlib.SPEC, "MC_Serving.tla"), os.path.join(vlib.SPEC, "MC_Serving.cfg"), lwd, workers=4,
+                 timeout=600, allow_zero=("StateBound",))
+    res.add_mc("MC_Serving", st)
+    n_seq = 150 if thorough else 30
+    tpath = os.path.join(lwd, "live.trace.ndjson")
+    opath = os.path.join(lwd, "live.out")
+    vlib.run_driver("drive_front", ["live", "--seed", str(seed), "--n", str(n_seq), "--cases", cpath, "--trace", tpath],
+                    stdout_path=opath, timeout=2400)
+    mism, tst = vlib.trace_check(os.path.join(vlib.SPEC, "Trace_Serving.tla"), os.path.join(vlib.SPEC, "Trace_Serving.cfg"),
+                                 lwd, tpath, timeout=900)
+    for m in mism:
+        o = m["obs"]
+        what = "canary-unanswered" if o["replies"] == 0 else "canary-answer-wrong"
+        res.mismatch("serving:" + what,
+                     {"via": "live", "what": what, "after": m["after"], "proto": m["proto"], "rcode": o["rcode"],
+                      "replies": o["replies"], "attempts": o["attempts"]}, m)
+    seqs = canaries = 0
+    for v in vlib.read_ndjson(opath):
+        seqs += 1
+        canaries += v["canaries"]
+        res.nontrivial.add("live:" + str(v["case"]))
+    if seqs == 0:
+        raise vlib.ToolError("live mode played no sequence")
+    res.traces += seqs
+    res.evaluations += 2 * canaries
+    res.extra["live_sequences"] = seqs
+    res.extra["live_canaries_judged"] = canaries
+    res.extra["live_trace_events_validated"] = tst["distinct"]
+    with open(tpath) as f:
+        for line in f:
+            if '"ev":"canary"' in line and '"after":"big65535"' in line:
+                e = json.loads(line)
+                res.sample({"live_canary_after": e["after"], "proto": e["proto"], "qname": e["req"]["qname"],
+                            "observed": {k: e["obs"][k] for k in ("replies", "attempts", "rcode", "question", "zone", "waited_ms")}}, cap=5)
+                break
 
 
 def run(res, tier, seed):
@@ -59,6 +108,8 @@ def run(res, tier, seed):
         "the answering zone / handler is read off the SOA in the (negative) answer; handlers are instrumented wrappers "
         "around real InMemoryZoneHandlers",
         "a QNAME that is a compression pointer into the header is echoed byte-identically (observation, not judged)",
+        "live part: real clock and loopback sockets; a canary is given 10 s (UDP: sent once more after that, another 10 s); "
+        "nothing is demanded for the hostile requests themselves there; after two unanswered canaries the live run stops",
         "TLC 1.8.0 and the JSON projection are trusted",
     ]
     wd = vlib.workdir("c11")
@@ -85,6 +136,7 @@ def run(res, tier, seed):
         mc_results = f_mc.result()
     for cfg, st in mc_results:
         res.add_mc(cfg, st)
+    run_live(res, wd, cpath, seed, thorough)
     res.states += gst["distinct"]
     res.transitions += gst["generated"]
 
